@@ -147,4 +147,449 @@ theorem odd_part_unique {a b s t : ℕ} (ha : a % 2 = 1) (hb : b % 2 = 1) (h : 2
       obtain ⟨h1, h2⟩ := ih this
       exact ⟨by omega, h2⟩
 
+/-! ## Fibonacci identities -/
+
+theorem and_two_pow_ne_zero (n j : ℕ) : n &&& 2 ^ j ≠ 0 ↔ n / 2 ^ j % 2 = 1 := by
+  rw [Nat.and_two_pow, Nat.testBit_eq_decide_div_mod_eq]
+  by_cases h : n / 2 ^ j % 2 = 1
+  · simp [h]
+  · simp [h]
+
+/-- Cassini in the form c² - c a - a² = (-1)^k for a = F(k), c = F(k+1) -/
+theorem cassini_int (k : ℕ) :
+    ((Nat.fib (k + 1) : ℤ)) ^ 2 - Nat.fib (k + 1) * Nat.fib k - (Nat.fib k : ℤ) ^ 2 = (-1) ^ k := by
+  induction k with
+  | zero => simp
+  | succ k ih =>
+    rw [Nat.fib_add_two, pow_succ]
+    push_cast
+    linear_combination (-1 : ℤ) * ih
+
+theorem cassini_nat (k : ℕ) (a c : ℕ) (ha : a = Nat.fib k) (hc : c = Nat.fib (k + 1)) :
+    (k % 2 = 0 → c * c = a * c + a * a + 1) ∧ (k % 2 = 1 → c * c + 1 = a * c + a * a) := by
+  have h := cassini_int k
+  rw [← ha, ← hc] at h
+  constructor
+  · intro hk
+    have : (-1 : ℤ) ^ k = 1 := Even.neg_one_pow (Nat.even_iff.mpr hk)
+    rw [this] at h
+    have : (c : ℤ) * c = a * c + a * a + 1 := by linear_combination h
+    exact_mod_cast this
+  · intro hk
+    have : (-1 : ℤ) ^ k = -1 := Odd.neg_one_pow (Nat.odd_iff.mpr hk)
+    rw [this] at h
+    have : (c : ℤ) * c + 1 = a * c + a * a := by linear_combination h
+    exact_mod_cast this
+
+/-- the doubling identities behind mpn_fib2_ui, for a = F(k), b = "F(k-1)" (b + a = F(k+1)) -/
+theorem fib_doubling (k a b : ℕ) (ha : a = Nat.fib k) (hb : b + a = Nat.fib (k + 1)) :
+    (k % 2 = 0 → 4 * (a * a) + 2 = Nat.fib (2 * k + 1) + b * b) ∧
+    (k % 2 = 1 → 4 * (a * a) = Nat.fib (2 * k + 1) + b * b + 2) ∧
+    a * a + b * b + Nat.fib (2 * k) = Nat.fib (2 * k + 1) := by
+  have h1 := Nat.fib_two_mul_add_one k
+  have h2 := Nat.fib_two_mul k
+  obtain ⟨c1, c2⟩ := cassini_nat k a (b + a) ha hb
+  rw [← ha, ← hb] at h1 h2
+  have e : 2 * (b + a) - a = 2 * b + a := by omega
+  rw [e] at h2
+  refine ⟨fun hk => ?_, fun hk => ?_, ?_⟩
+  · have := c1 hk; nlinarith
+  · have := c2 hk; nlinarith
+  · nlinarith
+theorem fib_add_twelve_mod8 (n : ℕ) : Nat.fib (n + 12) % 8 = Nat.fib n % 8 := by
+  have h := Nat.fib_add n 11
+  have e11 : Nat.fib 11 = 89 := by decide
+  have e12 : Nat.fib 12 = 144 := by decide
+  rw [show n + 11 + 1 = n + 12 by omega, e11, show 11 + 1 = 12 by rfl, e12] at h
+  omega
+
+/-- F(4m+3) is 1, 2 or 5 modulo 8 (fib2_ui.c:52-58) -/
+theorem fib_four_mul_add_three_mod8 (m : ℕ) :
+    Nat.fib (4 * m + 3) % 8 = 1 ∨ Nat.fib (4 * m + 3) % 8 = 2 ∨ Nat.fib (4 * m + 3) % 8 = 5 := by
+  induction m using Nat.strong_induction_on with
+  | _ m ih =>
+    match m with
+    | 0 => decide
+    | 1 => decide
+    | 2 => decide
+    | m + 3 =>
+      have := ih m (by omega)
+      rw [show 4 * (m + 3) + 3 = 4 * m + 3 + 12 by ring, fib_add_twelve_mod8]
+      exact this
+
+theorem lowLimbSub_zero (v : ℕ) : lowLimbSub v 0 = v := by
+  unfold lowLimbSub; simp only [B_eq]; omega
+
+theorem lowLimbSub_two (v : ℕ) (h : 3 ≤ v % 8) : lowLimbSub v 2 = v - 2 := by
+  unfold lowLimbSub; simp only [B_eq]; omega
+
+theorem four_mul_or_two (x : ℕ) : 4 * x ||| 2 = 4 * x + 2 := by
+  have := Nat.shiftLeft_add_eq_or_of_lt (i := 2) (b := 2) (by decide) x
+  rw [Nat.shiftLeft_eq] at this
+  rw [mul_comm]; exact this.symm
+
+/-- invariant of the doubling loop: p = (F(k), "F(k-1)") with F(-1) = 1 -/
+def FibPair (k : ℕ) (p : ℕ × ℕ) : Prop := p.1 = Nat.fib k ∧ p.2 + Nat.fib k = Nat.fib (k + 1)
+
+theorem fib2Step_spec (n j : ℕ) (p : ℕ × ℕ) (h : FibPair (n / 2 ^ (j + 1)) p) :
+    FibPair (n / 2 ^ j) (fib2Step n (2 ^ (j + 1)) p.1 p.2) := by
+  obtain ⟨f, f1⟩ := p
+  obtain ⟨hf, hf1⟩ := h
+  simp only at hf hf1
+  generalize hk : n / 2 ^ (j + 1) = k at hf hf1
+  have hk' : n / 2 ^ j = 2 * k + n / 2 ^ j % 2 := by
+    rw [← hk, pow_succ, ← Nat.div_div_eq_div_mul]; omega
+  obtain ⟨d1, d2, d3⟩ := fib_doubling k f f1 hf (by rw [hf]; exact hf1)
+  have hshift : 2 ^ (j + 1) >>> 1 = 2 ^ j := by rw [Nat.shiftRight_eq_div_pow, pow_succ]; simp
+  have hadd : Nat.fib (2 * k) + Nat.fib (2 * k + 1) = Nat.fib (2 * k + 1 + 1) := by rw [Nat.fib_add_two]
+  simp only [fib2Step, hshift, and_two_pow_ne_zero, hk]
+  -- the value F(2k+1) after the ±2 corrections
+  have hFP : lowLimbSub ((4 * (f * f) ||| if k % 2 = 1 then 0 else 2) - f1 * f1) (if k % 2 = 1 then 2 else 0)
+      = Nat.fib (2 * k + 1) := by
+    by_cases hko : k % 2 = 1
+    · simp only [hko, if_true, Nat.or_zero]
+      have := d2 hko
+      have hm := fib_four_mul_add_three_mod8 (k / 2)
+      rw [show 4 * (k / 2) + 3 = 2 * k + 1 by omega] at hm
+      rw [lowLimbSub_two] <;> omega
+    · have hke : k % 2 = 0 := by omega
+      simp only [hko, if_false, four_mul_or_two, lowLimbSub_zero]
+      have := d1 hke
+      omega
+  rw [hFP]
+  by_cases hb : n / 2 ^ j % 2 = 1
+  · simp only [hb, if_true]
+    rw [hk', hb]
+    exact ⟨rfl, by simp only; omega⟩
+  · have hb0 : n / 2 ^ j % 2 = 0 := by omega
+    simp only [hb, if_false]
+    rw [hk', hb0, Nat.add_zero]
+    exact ⟨by simp only; omega, by simp only; omega⟩
+
+theorem fib2Loop_spec (n : ℕ) : ∀ j p, FibPair (n / 2 ^ j) p → FibPair n (fib2Loop n j p) := by
+  intro j
+  induction j with
+  | zero => intro p h; simpa [fib2Loop] using h
+  | succ j ih => intro p h; rw [fib2Loop]; exact ih _ (fib2Step_spec n j p h)
+
+theorem fib2Start_spec (n : ℕ) :
+    (fib2Start n).1 = n / 2 ^ (fib2Start n).2 ∧ (fib2Start n).1 ≤ FIB_TABLE_LIMIT := by
+  induction n using Nat.strong_induction_on with
+  | _ n ih =>
+    rw [fib2Start]
+    by_cases h : n > FIB_TABLE_LIMIT
+    · simp only [h, dite_true]
+      have hlt : n / 2 < n := by omega
+      obtain ⟨h1, h2⟩ := ih (n / 2) hlt
+      refine ⟨?_, h2⟩
+      rw [h1, pow_succ, Nat.div_div_eq_div_mul, mul_comm]
+    · simp only [h, dite_false]
+      exact ⟨by simp, by omega⟩
+
+/-- what the regenerated table gives the loop as its start: the invariant holds for every index ≤ FIB_TABLE_LIMIT -/
+theorem fib_table_pair : ∀ k ≤ FIB_TABLE_LIMIT, FIB_TABLE k = Nat.fib k ∧ fibTab k + Nat.fib k = Nat.fib (k + 1) := by
+  decide +kernel
+
+theorem mpn_fib2_ui_pair (n : ℕ) : FibPair n (mpn_fib2_ui n) := by
+  unfold mpn_fib2_ui
+  obtain ⟨h1, h2⟩ := fib2Start_spec n
+  apply fib2Loop_spec
+  rw [← h1]
+  exact fib_table_pair _ h2
+
+theorem and_two_ne_zero (n : ℕ) : n &&& 2 ≠ 0 ↔ n / 2 % 2 = 1 := by
+  have := and_two_pow_ne_zero n 1
+  simpa using this
+
+theorem and_one_ne_zero (n : ℕ) : n &&& 1 ≠ 0 ↔ n % 2 = 1 := by
+  rw [Nat.and_one_is_mod]; omega
+
+theorem fib_add_six_mod4 (n : ℕ) : Nat.fib (n + 6) % 4 = Nat.fib n % 4 := by
+  have h := Nat.fib_add n 5
+  have e5 : Nat.fib 5 = 5 := by decide
+  have e6 : Nat.fib 6 = 8 := by decide
+  rw [show n + 5 + 1 = n + 6 by omega, e5, show 5 + 1 = 6 by rfl, e6] at h
+  omega
+
+/-- F(n) is not divisible by 4 for odd n -/
+theorem fib_odd_mod4 (n : ℕ) (hn : n % 2 = 1) : Nat.fib n % 4 ≠ 0 := by
+  induction n using Nat.strong_induction_on with
+  | _ n ih =>
+    match n, hn with
+    | 1, _ => decide
+    | 3, _ => decide
+    | 5, _ => decide
+    | n + 6, hn =>
+      rw [fib_add_six_mod4]; exact ih n (by omega) (by omega)
+    | 0, hn => omega
+    | 2, hn => omega
+    | 4, hn => omega
+
+theorem lowLimbAdd_two (v : ℕ) (h : 2 ≤ (v + 2) % B) : lowLimbAdd v 2 = v + 2 := by
+  unfold lowLimbAdd; simp only [B_eq] at *; omega
+
+/-- FibPair with k ≥ 1: the second component is F(k-1) ≤ F(k) -/
+theorem FibPair.le {k : ℕ} {p : ℕ × ℕ} (h : FibPair k p) (hk : 1 ≤ k) : p.2 ≤ p.1 := by
+  obtain ⟨h1, h2⟩ := h
+  obtain ⟨k', rfl⟩ : ∃ k', k = k' + 1 := ⟨k - 1, by omega⟩
+  rw [Nat.fib_add_two] at h2
+  have := @Nat.fib_le_fib_succ k'
+  omega
+
+theorem mpz_fib_ui_eq (n : ℕ)
+    (hclaim : n % 4 = 1 → FIB_TABLE_LIMIT < n → Nat.fib n % B ≠ 1) : mpz_fib_ui n = Nat.fib n := by
+  unfold mpz_fib_ui
+  by_cases hs : n ≤ FIB_TABLE_LIMIT
+  · simp only [hs, if_true]; exact (fib_table_pair n hs).1
+  · simp only [hs, if_false]
+    have hbig : FIB_TABLE_LIMIT < n := by omega
+    have hpair := mpn_fib2_ui_pair (n / 2)
+    generalize mpn_fib2_ui (n / 2) = p at hpair
+    obtain ⟨x, y⟩ := p
+    have hk1 : 1 ≤ n / 2 := by have : FIB_TABLE_LIMIT = 93 := rfl; omega
+    have hle : y ≤ x := hpair.le hk1
+    obtain ⟨hx, hy⟩ := hpair
+    simp only at hx hy hle ⊢
+    obtain ⟨d1, d2, d3⟩ := fib_doubling (n / 2) x y hx (by rw [hx]; exact hy)
+    simp only [and_one_ne_zero, and_two_ne_zero]
+    by_cases hodd : n % 2 = 1
+    · simp only [hodd, if_true]
+      have hn2 : 2 * (n / 2) + 1 = n := by omega
+      rw [hn2] at d1 d2
+      obtain ⟨z, hz⟩ : ∃ z, 2 * x = z + y := ⟨2 * x - y, by omega⟩
+      have e1 : 2 * x - y = z := by omega
+      have e2 : 2 * x + y = z + 2 * y := by omega
+      have hpr : (2 * x + y) * (2 * x - y) + y * y = 4 * (x * x) := by
+        rw [e1, e2]; have : 4 * (x * x) = (2 * x) * (2 * x) := by ring
+        rw [this, hz]; ring
+      by_cases hko : n / 2 % 2 = 1
+      · simp only [hko, if_true]
+        have := d2 hko
+        have hm := fib_four_mul_add_three_mod8 (n / 4)
+        rw [show 4 * (n / 4) + 3 = n by omega] at hm
+        rw [lowLimbSub_two] <;> omega
+      · simp only [hko, if_false]
+        have hke : n / 2 % 2 = 0 := by omega
+        have := d1 hke
+        have h4 := fib_odd_mod4 n hodd
+        have h1 := hclaim (by omega) hbig
+        have hP : (2 * x + y) * (2 * x - y) + 2 = Nat.fib n := by omega
+        rw [lowLimbAdd_two _ (by rw [hP]; simp only [B_eq] at *; omega), hP]
+    · simp only [hodd, if_false]
+      have hn2 : 2 * (n / 2) = n := by omega
+      have h2 := Nat.fib_two_mul (n / 2)
+      rw [hn2, ← hy, ← hx] at h2
+      rw [h2]
+      have : 2 * (y + x) - x = 2 * y + x := by omega
+      rw [this]; ring
+
+/-- l is the Lucas number L(k): L(k) + F(k) = 2 F(k+1) -/
+def LucVal (k l : ℕ) : Prop := l + Nat.fib k = 2 * Nat.fib (k + 1)
+
+/-- L(2k+1) = 5 F(k-1) (2F(k) + F(k-1)) - 4 (-1)^k, for a = F(k), b = "F(k-1)" -/
+theorem luc_odd_formula (k a b : ℕ) (ha : a = Nat.fib k) (hb : b + a = Nat.fib (k + 1)) :
+    (k % 2 = 1 → LucVal (2 * k + 1) (5 * ((2 * a + b) * b) + 4)) ∧
+    (k % 2 = 0 → 4 ≤ 5 * ((2 * a + b) * b) ∧ LucVal (2 * k + 1) (5 * ((2 * a + b) * b) - 4)) := by
+  have h1 := Nat.fib_two_mul_add_one k
+  have h2 := Nat.fib_two_mul k
+  have h3 : Nat.fib (2 * k + 1 + 1) = Nat.fib (2 * k) + Nat.fib (2 * k + 1) := Nat.fib_add_two
+  obtain ⟨c1, c2⟩ := cassini_nat k a (b + a) ha hb
+  rw [← ha, ← hb] at h1 h2
+  have e : 2 * (b + a) - a = 2 * b + a := by omega
+  rw [e] at h2
+  unfold LucVal
+  rw [h3, h1, h2]
+  constructor
+  · intro hk; have := c2 hk; nlinarith
+  · intro hk; have := c1 hk
+    have h5 : 5 * ((2 * a + b) * b) = 4 + (4 * (a * a) + 6 * (a * b) + b * b) := by nlinarith
+    constructor
+    · omega
+    · rw [h5, Nat.add_sub_cancel_left]; nlinarith
+
+/-- L(2k) = L(k)^2 - 2 (-1)^k -/
+theorem luc_sq_aux (k l a c : ℕ) (ha : a = Nat.fib k) (hc : c = Nat.fib (k + 1)) (hl : l + a = 2 * c) :
+    (k % 2 = 1 → l * l + 2 + Nat.fib (2 * k) = 2 * Nat.fib (2 * k + 1)) ∧
+    (k % 2 = 0 → 2 ≤ l * l ∧ l * l - 2 + Nat.fib (2 * k) = 2 * Nat.fib (2 * k + 1)) := by
+  have h1 := Nat.fib_two_mul_add_one k
+  have h2 := Nat.fib_two_mul k
+  obtain ⟨c1, c2⟩ := cassini_nat k a c ha hc
+  rw [← ha, ← hc] at h1 h2
+  have e : a * (2 * c - a) + a * a = 2 * (a * c) := by
+    have : 2 * c - a + a = 2 * c := by omega
+    calc a * (2 * c - a) + a * a = a * (2 * c - a + a) := by ring
+      _ = 2 * (a * c) := by rw [this]; ring
+  have el : l * l + 4 * (a * c) = 4 * (c * c) + a * a := by
+    have h4 : (l + a) * (l + a) = 4 * (c * c) := by rw [hl]; ring
+    have h5 : l * a + a * a = 2 * (a * c) := by
+      calc l * a + a * a = (l + a) * a := by ring
+        _ = 2 * (a * c) := by rw [hl]; ring
+    nlinarith
+  rw [h1, h2]
+  constructor
+  · intro hk; have := c2 hk; nlinarith
+  · intro hk; have := c1 hk
+    have h6 : l * l = 2 + (2 * (c * c) + 3 * (a * a) - 2 * (a * c)) := by
+      have : 2 * (a * c) ≤ 2 * (c * c) + 3 * (a * a) := by nlinarith
+      omega
+    constructor
+    · omega
+    · rw [h6, Nat.add_sub_cancel_left]
+      have : 2 * (a * c) ≤ 2 * (c * c) + 3 * (a * a) := by nlinarith
+      nlinarith
+
+theorem luc_sq_formula (k l : ℕ) (h : LucVal k l) :
+    (k % 2 = 1 → LucVal (2 * k) (l * l + 2)) ∧ (k % 2 = 0 → 2 ≤ l * l ∧ LucVal (2 * k) (l * l - 2)) :=
+  luc_sq_aux k l _ _ rfl rfl h
+
+/-- L(4m+3) is 4, 5 or 7 modulo 8 (lucnum_ui.c:30-32), in the additive form used for `LucVal` -/
+theorem luc_four_mul_add_three_mod8 (m : ℕ) : ∃ r, (r = 4 ∨ r = 5 ∨ r = 7) ∧
+    (r + Nat.fib (4 * m + 3)) % 8 = (2 * Nat.fib (4 * m + 3 + 1)) % 8 := by
+  induction m using Nat.strong_induction_on with
+  | _ m ih =>
+    match m with
+    | 0 => exact ⟨4, by decide⟩
+    | 1 => exact ⟨5, by decide⟩
+    | 2 => exact ⟨7, by decide⟩
+    | m + 3 =>
+      obtain ⟨r, hr, h⟩ := ih m (by omega)
+      refine ⟨r, hr, ?_⟩
+      have e1 := fib_add_twelve_mod8 (4 * m + 3)
+      have e2 := fib_add_twelve_mod8 (4 * m + 3 + 1)
+      rw [show 4 * (m + 3) + 3 = 4 * m + 3 + 12 by ring, show 4 * m + 3 + 12 + 1 = 4 * m + 3 + 1 + 12 by ring]
+      omega
+
+theorem lowLimbAdd_four (v : ℕ) (h : 4 ≤ (v + 4) % 8) : lowLimbAdd v 4 = v + 4 := by
+  unfold lowLimbAdd; simp only [B_eq] at *; omega
+
+theorem sq_mod_four (l : ℕ) : l * l % 4 = 0 ∨ l * l % 4 = 1 := by
+  rw [Nat.mul_mod]
+  have : l % 4 < 4 := Nat.mod_lt _ (by decide)
+  interval_cases (l % 4) <;> simp
+
+theorem lowLimbAdd_two_sq (l : ℕ) : lowLimbAdd (l * l) 2 = l * l + 2 := by
+  apply lowLimbAdd_two
+  have := sq_mod_four l
+  simp only [B_eq]; omega
+
+/-- what the table gives: L[n] = F[n] + 2F[n-1] fits a limb up to FIB_TABLE_LUCNUM_LIMIT, and so does 2F[n] -/
+theorem luc_table_fits : ∀ n ≤ FIB_TABLE_LUCNUM_LIMIT,
+    n ≤ FIB_TABLE_LIMIT ∧ FIB_TABLE n + 2 * fibTab n < B ∧ 2 * FIB_TABLE n < B := by decide +kernel
+
+theorem lucTab_spec (n : ℕ) (h : n ≤ FIB_TABLE_LUCNUM_LIMIT) : LucVal n (lucTab n) := by
+  obtain ⟨h1, h2, _⟩ := luc_table_fits n h
+  obtain ⟨e1, e2⟩ := fib_table_pair n h1
+  unfold LucVal lucTab
+  rw [Nat.mod_eq_of_lt h2, e1]; omega
+
+theorem lucSquare_spec : ∀ z k p l, p % 2 = k % 2 → LucVal k l → LucVal (k * 2 ^ z) (lucSquare z l p) := by
+  intro z
+  induction z with
+  | zero => intro k p l _ h; simpa [lucSquare] using h
+  | succ z ih =>
+    intro k p l hp h
+    obtain ⟨s1, s2⟩ := luc_sq_formula k l h
+    rw [lucSquare]
+    simp only [and_one_ne_zero]
+    rw [show k * 2 ^ (z + 1) = (2 * k) * 2 ^ z by rw [pow_succ]; ring]
+    by_cases hk : k % 2 = 1
+    · have hp1 : p % 2 = 1 := by omega
+      simp only [hp1, if_true, lowLimbAdd_two_sq]
+      exact ih (2 * k) 0 _ (by omega) (s1 hk)
+    · have hp0 : ¬ p % 2 = 1 := by omega
+      simp only [hp0, if_false]
+      exact ih (2 * k) p _ (by omega) (s2 (by omega)).2
+
+theorem lucStrip_spec (n : ℕ) (hn : FIB_TABLE_LUCNUM_LIMIT < n) :
+    n = (lucStrip n).2.2 * 2 ^ (lucStrip n).2.1 ∧ LucVal (lucStrip n).2.2 (lucStrip n).1 := by
+  induction n using Nat.strong_induction_on with
+  | _ n ih =>
+    rw [lucStrip]
+    simp only [and_one_ne_zero, and_two_ne_zero]
+    by_cases hodd : n % 2 = 1
+    · simp only [hodd, if_true]
+      refine ⟨by simp, ?_⟩
+      have hpair := mpn_fib2_ui_pair (n / 2)
+      generalize mpn_fib2_ui (n / 2) = p at hpair
+      obtain ⟨x, y⟩ := p
+      obtain ⟨hx, hy⟩ := hpair
+      simp only at hx hy ⊢
+      obtain ⟨o1, o2⟩ := luc_odd_formula (n / 2) x y hx (by rw [hx]; exact hy)
+      rw [show 2 * (n / 2) + 1 = n by omega] at o1 o2
+      by_cases hko : n / 2 % 2 = 1
+      · simp only [hko, if_true]
+        have hv := o1 hko
+        obtain ⟨r, hr, hm⟩ := luc_four_mul_add_three_mod8 (n / 4)
+        rw [show 4 * (n / 4) + 3 = n by omega] at hm
+        have : 4 ≤ (5 * ((2 * x + y) * y) + 4) % 8 := by
+          unfold LucVal at hv; omega
+        rw [lowLimbAdd_four _ this]; exact hv
+      · simp only [hko, if_false]
+        exact (o2 (by omega)).2
+    · simp only [hodd, if_false]
+      by_cases hs : n / 2 ≤ FIB_TABLE_LUCNUM_LIMIT
+      · simp only [hs, dite_true]
+        exact ⟨by omega, lucTab_spec _ hs⟩
+      · simp only [hs, dite_false]
+        obtain ⟨h1, h2⟩ := ih (n / 2) (by omega) (by omega)
+        refine ⟨?_, h2⟩
+        rw [pow_succ, ← mul_assoc, ← h1]; omega
+
+theorem mpz_lucnum_ui_val (n : ℕ) : LucVal n (mpz_lucnum_ui n) := by
+  unfold mpz_lucnum_ui
+  by_cases hs : n ≤ FIB_TABLE_LUCNUM_LIMIT
+  · simp only [hs, if_true]; exact lucTab_spec n hs
+  · simp only [hs, if_false]
+    obtain ⟨h1, h2⟩ := lucStrip_spec n (by omega)
+    have := lucSquare_spec (lucStrip n).2.1 (lucStrip n).2.2 (lucStrip n).2.2 (lucStrip n).1 rfl h2
+    rw [← h1] at this; exact this
+
+/-- FibPair with k ≥ 1: the second component is F(k-1) -/
+theorem FibPair.pred {k : ℕ} {p : ℕ × ℕ} (h : FibPair k p) (hk : 1 ≤ k) : p.2 = Nat.fib (k - 1) := by
+  obtain ⟨h1, h2⟩ := h
+  obtain ⟨k', rfl⟩ : ∃ k', k = k' + 1 := ⟨k - 1, by omega⟩
+  rw [Nat.fib_add_two] at h2
+  simp only [Nat.add_sub_cancel]; omega
+
+/-- from (F(n), F(n-1)): L(n) = F(n) + 2F(n-1) and, for n ≥ 1, L(n-1) = 2F(n) - F(n-1) -/
+theorem luc_pair_of_fib_pair {n x y : ℕ} (h : FibPair n (x, y)) :
+    LucVal n (x + 2 * y) ∧ (1 ≤ n → y ≤ 2 * x ∧ LucVal (n - 1) (2 * x - y)) := by
+  have hle := fun hn => h.le hn
+  have hpred := fun hn => h.pred hn
+  obtain ⟨h1, h2⟩ := h
+  simp only at h1 h2 hle hpred
+  refine ⟨by unfold LucVal; omega, fun hn => ?_⟩
+  have := hle hn; have hp := hpred hn
+  refine ⟨by omega, ?_⟩
+  unfold LucVal
+  rw [show n - 1 + 1 = n by omega, ← hp, ← h1]; omega
+
+theorem sub_mod_limb (a b : ℕ) (ha : a < B) (hb : b ≤ a) : (a + B - b) % B = a - b := by
+  simp only [B_eq] at *; omega
+
+theorem mpz_lucnum2_ui_val (n : ℕ) :
+    (∃ l : ℕ, (mpz_lucnum2_ui n).1 = (l : ℤ) ∧ LucVal n l) ∧ (n = 0 → (mpz_lucnum2_ui n).2 = -1) ∧
+    (1 ≤ n → ∃ l1 : ℕ, (mpz_lucnum2_ui n).2 = (l1 : ℤ) ∧ LucVal (n - 1) l1) := by
+  unfold mpz_lucnum2_ui
+  by_cases hs : n ≤ FIB_TABLE_LUCNUM_LIMIT
+  · simp only [hs, if_true]
+    obtain ⟨h1, h2, h3⟩ := luc_table_fits n hs
+    have hp : FibPair n (FIB_TABLE n, fibTab n) := fib_table_pair n h1
+    obtain ⟨l1, l2⟩ := luc_pair_of_fib_pair hp
+    refine ⟨⟨FIB_TABLE n + 2 * fibTab n, by rw [Nat.mod_eq_of_lt h2]; rfl, l1⟩, fun h0 => by simp [h0], fun hn => ?_⟩
+    obtain ⟨hle, hv⟩ := l2 hn
+    have hn0 : n ≠ 0 := by omega
+    refine ⟨2 * FIB_TABLE n - fibTab n, ?_, hv⟩
+    simp only [hn0, if_false]
+    rw [Nat.mod_eq_of_lt h3]
+    rw [sub_mod_limb _ _ h3 hle]; rfl
+  · simp only [hs, if_false]
+    have hp := mpn_fib2_ui_pair n
+    generalize mpn_fib2_ui n = p at hp
+    obtain ⟨x, y⟩ := p
+    obtain ⟨l1, l2⟩ := luc_pair_of_fib_pair hp
+    have hn : 1 ≤ n := by omega
+    refine ⟨⟨2 * y + x, rfl, by rw [show 2 * y + x = x + 2 * y by ring]; exact l1⟩, fun h0 => by omega, fun _ => ?_⟩
+    exact ⟨2 * x - y, rfl, (l2 hn).2⟩
+
 end Mpir.Numth
